@@ -6,6 +6,12 @@ CHECKS = {
  'C01': dict(level='model_checking', engine='seqmc', technique='explicit-state exploration of the implementation: exhaustive enumeration of programs x initial trees x mutations (bounded size), each API call compared with an executable reference model',
    text='Every build/clean call of every history in the stated bounded space (all call skeletons up to the size bound, all initial trees, every external mutation of the alphabet) is executed by the real FileBuilder and by the from-scratch reference model from the same state; return value (type-exact), exception class and resulting tree must agree. Exhaustive within the bounds listed in the evidence file.',
    note='Trusts CPython, tmpfs semantics, the ~200-line DSL interpreter shared by both sides and the reference model (validated against the implementation on every transition). Bounded: paths U={a,i,d,d/x,d/y,d/e,d/e/z}, programs <=2 (quick) / <=3 (thorough) call nodes plus the single-observer and 3-chain families; no symlinks, permissions, concurrent external changes.', design='4/C01'),
+ 'C02': dict(level='model_checking', engine='seqmc', technique='exhaustive crash-point enumeration on the implementation: every program point of every build transition of the bounded sweep, before/after monitors plus depth-1 bisimulation',
+   text='For every (program, initial tree, mutation) of the bounded space and every program point k of the first build and of the rebuild, the build is re-run with an exception injected at k. Oracles: the exception leaving build is the injected object; every file that existed before has identical bytes and mtime (cache file included); nothing new remains (recorded created directories may reappear empty); the next build from the post-rollback state equals the next build from the saved pre-state. Exhaustive within the listed bounds.',
+   note='Monitors compare the real tree before/after; no model involved except for choosing histories. Crash points are statement boundaries of the generated user functions (before/after every builder call, inside every nested function, after the last statement); BaseExceptions and cache-write faults are not injected here (cache-write faults: C14/C16).', design='4/C02'),
+ 'C12': dict(level='model_checking', engine='seqmc', technique='exhaustive enumeration of histories with clean at every position, executed on the implementation and compared with the reference model',
+   text='clean is executed after commits, after rolled-back builds, after every external mutation and after a previous clean, for every program/tree/mutation of the bounded space; the tree after clean must equal the reference model (outputs, cache file and emptied created directories gone, nothing else touched), a second clean must change nothing, and the next build must behave as a first build (value, tree and invocation log equal the from-scratch model).',
+   note='Same trusted base as C01.', design='4/C12'),
 }
 NOT_YET = {}
 props = [json.loads(l)['id'] for l in open(V + '/properties.jsonl')]
